@@ -51,6 +51,7 @@ SCRIPTS = {
                              ('add_jobs', 'u1', 2, [J(1, abs_parents=[1], group=1)]),
                              ('add_jobs', 'u1', 2, [J(2, parents=[1], group=1, always_run=True)]), ('commit', 'u1', 2)],
     'u3_independent_job': [('new_update', 'u1', 't3', 1, 0), ('add_jobs', 'u1', 3, [J(1, abs_group=0)]), ('commit', 'u1', 3)],
+    'u2_rest_after_reserve': [('add_jobs', 'u1', 2, [J(1, abs_parents=[1], abs_group=0)]), ('commit', 'u1', 2)],
     'u2_empty_groups_only': [('new_update', 'u1', 't2', 0, 1), ('add_groups', 'u1', 2, [G(1, parent_abs=0)]), ('commit', 'u1', 2)],
 }
 
@@ -406,7 +407,9 @@ class Family(dbmc.Harness):
             if a['start_time'] is None and a['end_time'] is None:
                 out.append(('started', j, a['attempt_id'], inst, 10))
             for s in ('Success', 'Failed'):
-                if a['end_time'] is None or self.opts.get('dup_reports', True):
+                # a worker reports the outcome of an attempt until the driver acknowledges it, then never again;
+                # further copies (dup_reports) model retries after a lost response
+                if self.opts.get('dup_reports', True) or (a['end_time'] is None and (j, a['attempt_id']) not in getattr(w, 'reported', ())):
                     out.append(('complete', j, a['attempt_id'], inst, s, 10, 20))
         if self.opts.get('stale_attempt', True) and v.jobs and st['i1'] == 'active':
             j = v.jobs[0]['job_id']
@@ -431,6 +434,10 @@ class Family(dbmc.Harness):
                 out.append(('cancel', g['job_group_id']))
         for which in ('ready', 'running', 'orphans') if not self.opts.get('no_cancel') else ('ready',):
             out.append(('canceller', which))
+        if not self.opts.get('no_cancel') and self.opts.get('late_unschedule', True) and \
+                any(j['state'] == 'Running' and v.job_cancelled(j) for j in v.jobs):
+            # the job finishes while the canceller is on its way: its unschedule arrives after the completion report
+            out.append(('canceller', 'running', 'complete'))
         if self.opts.get('preempt', True):
             for inst in ('i1',):
                 if st[inst] == 'active' and any(a['instance_name'] == inst for a in atts):
@@ -487,7 +494,8 @@ class Family(dbmc.Harness):
     def canon(self, w):
         d = w.mdb.store.dump(drop=DROP)
         d.pop('batch_bunches', None)
-        return repr(sorted(d.items())) + repr((sorted(w.mirror().items()), w.script, w.pos, w.token))
+        rep = () if self.opts.get('dup_reports', True) else tuple(sorted(getattr(w, 'reported', ())))
+        return repr(sorted(d.items())) + repr((sorted(w.mirror().items()), w.script, w.pos, w.token, rep))
 
 
 def _patch_world_snapshot():
@@ -498,11 +506,11 @@ def _patch_world_snapshot():
     snap0, rest0 = BW.snapshot, BW.restore
 
     def snapshot(self):
-        return snap0(self) + ((getattr(self, 'script', None), getattr(self, 'pos', 0)),)
+        return snap0(self) + ((getattr(self, 'script', None), getattr(self, 'pos', 0), getattr(self, 'reported', frozenset())),)
 
     def restore(self, snap):
         rest0(self, snap[:-1])
-        self.script, self.pos = snap[-1]
+        self.script, self.pos, self.reported = snap[-1]
 
     BW.snapshot = snapshot
     BW.restore = restore
